@@ -282,7 +282,7 @@ fn free_token() -> impl Strategy<Value = String> {
 // ---------------------------------------------------------------------------------------------
 // names
 
-const NAME_PROGRAM: &str = ".orig x3000\nstart add r1 r1 #1\nadd r2 r2 #2\njsr sub\nadd r3 r3 #3\nhalt\nsub add r4 r4 #4\nret\ndata .fill x1234\n";
+const NAME_PROGRAM: &str = ".orig x3000\nstart add r1 r1 #1\nadd r2 r2 #2\njsr sub\nadd r3 r3 #3\nhalt\nsub add r4 r4 #4\nret\ndata .fill x1234\ndatb .fill x4321\nsuc .fill x0\n";
 
 fn name_args(canonical: &str) -> &'static str {
     match canonical {
@@ -357,6 +357,9 @@ const TRANSPORT_POOL: &[&str] = &[
     "step", "s", "step into 2", "si", "continue", "registers", "print r1", "print ^", "move r2 x12", "move x3006 -4", "goto x3002", "assembly", "a x3001",
     "break add x3003", "break add ^1", "break remove x3003", "break list", "echo hi there", "eval add r1 r1 #3", "reset", "bogus", "move r1", "goto nowhere",
     "help", "b l", "s o", "print data", "print sub+1", "goto sub",
+    // labels of equal length in the same position of consecutive commands
+    "print datb", "move data x7", "move datb x9", "print suc", "move suc -1", "move sub x1021", "break add sub", "break add suc", "break remove sub", "goto suc", "assembly data", "assembly datb",
+    "move data+1 x5", "move datb-1 x6", "print datb+1",
 ];
 
 fn judge_transport(commands: &[String], split: usize, sep_arg: bool, sep_stdin: bool, decorate: u8) -> Obs {
